@@ -2,6 +2,7 @@ import Martian.Go.Strings
 import Martian.Go.Strconv
 import Martian.Go.Path
 import Martian.Model.MessageView
+import Martian.Drv.Http1
 /-! Driver ops that expose the stdlib models so the harness can compare them with real Go. -/
 namespace Martian.Drv.GoLib
 open Martian Martian.Go
@@ -23,6 +24,6 @@ def step (toks : List String) : Option String :=
       match MessageView.dechunk b with | some d => s!"some {hex d}" | none => "none"
   | ["golib.tolower", s] => (unhex s).map fun b => hex (toLower b)
   | ["golib.hassuffix", s, p] => do let b ← unhex s; let c ← unhex p; pure (toString (hasSuffix b c))
-  | _ => none
+  | _ => Http1.step toks
 
 end Martian.Drv.GoLib
